@@ -61,7 +61,10 @@ class HDF5DataFrame(DataFrame):
         self._h5group = h5group
 
         for subg in h5group.keys():
-            self._columns[subg] = dataset.session.get(h5group[subg])
+            field = dataset.session.get(h5group[subg])
+            # fields loaded from an existing group belong to this dataframe
+            field._dataframe = self
+            self._columns[subg] = field
 
     @property
     def columns(self):
